@@ -41,6 +41,20 @@ def run(R):
             R.violation("C05.err", "JoinedTableData::execute|" + what,
                         "the result of %s is not propagated as an error%s: a missing join column / file / table would look like an empty join"
                         % (what, " (swallowed by %s)" % short(swallow[0].name) if swallow else ""), [c.loc()])
+    # the queried side's join column is resolved (and its absence reported) on every path of the lookup: no fast path returns before it
+    gj = R.need_fn(J + "JoinedTableData::get_joined_row")
+    ix = [c for c in gj.calls if short(c.name).endswith("TableDefinition::index_for")]
+    if not ix:
+        R.violation("C05.err", "get_joined_row|index_for|missing", "get_joined_row no longer resolves the join column of the queried table", [gj.loc()])
+    else:
+        good, badb = PR.all_paths_hit(gj, 0, [ix[0].bb])
+        tb = [t for t in PR.calls_matching(gj, r"Try>::branch$") if any(o.kind == "call" and o.call is ix[0] for o in F.origins(gj, t.args[0], depth=8))]
+        if good and tb:
+            R.ok("C05.err", "get_joined_row|index_for", "column resolved and `?`-propagated on every path", ix[0].loc())
+        else:
+            R.violation("C05.err", "get_joined_row|index_for|bypassed",
+                        "get_joined_row can return before (or without) reporting a missing join column of the queried table: with an empty joined "
+                        "file a wrong column name looks like an empty result", [gj.loc(badb) if badb is not None else ix[0].loc()])
     # ---- NULL keys
     for fname, sink, which in (("JoinedTableData::add_row", r"^std::collections::hash::map::HashMap::entry$", "insert"),
                                ("JoinedTableData::get_joined_row", r"^std::collections::hash::map::HashMap::get$", "lookup")):
